@@ -391,7 +391,74 @@ def inert_error_stop(ctx):
                       "'a # b x' it gives %r" % (b, a), {"kind": "inert"})
 
 
+def sub_operator_family(ctx):
+    """`a - b` inserts an error stop whatever class `a` is (several classes override the sequence operators): once `a` has
+    matched, a failure of `b` is a ParseSyntaxException that no enclosing alternative may swallow.  Implementation only."""
+    import pyparsing as pp
+    from pyparsing import common as ppc
+    W, L = pp.Word, pp.Literal
+
+    def fwd():
+        f = pp.Forward()
+        f <<= W("ab")
+        return f
+    lefts = [
+        ("Literal", lambda: L("a"), "a"), ("CaselessLiteral", lambda: pp.CaselessLiteral("a"), "A"), ("Keyword", lambda: pp.Keyword("a"), "a"),
+        ("CaselessKeyword", lambda: pp.CaselessKeyword("a"), "A"), ("Word", lambda: W("ab"), "ab"), ("Char", lambda: pp.Char("ab"), "a"),
+        ("Regex", lambda: pp.Regex("a+"), "aa"), ("QuotedString", lambda: pp.QuotedString("'"), "'a'"), ("CharsNotIn", lambda: pp.CharsNotIn("?! "), "ab"),
+        ("White", lambda: pp.White(" "), " "), ("Empty", lambda: pp.Empty(), ""), ("StringStart", lambda: pp.StringStart(), ""),
+        ("LineStart", lambda: pp.LineStart(), ""), ("Suppress", lambda: pp.Suppress("a"), "a"), ("Suppress.word", lambda: pp.Suppress(W("ab")), "ab"),
+        ("Suppress.method", lambda: L("a").suppress(), "a"), ("Group", lambda: pp.Group(W("ab")), "ab"), ("Opt", lambda: pp.Opt("a"), "a"),
+        ("Opt.absent", lambda: pp.Opt("z"), ""), ("ZeroOrMore", lambda: pp.ZeroOrMore("a"), "a a"), ("OneOrMore", lambda: pp.OneOrMore("a"), "a a"),
+        ("And", lambda: L("a") + "b", "a b"), ("And.stop", lambda: L("a") - "b", "a b"), ("MatchFirst", lambda: L("a") | "b", "b"),
+        ("Or", lambda: L("a") ^ "ab", "ab"), ("Each", lambda: L("a") & "b", "b a"), ("Forward", fwd, "ab"), ("Combine", lambda: pp.Combine(W("a") + W("b")), "ab"),
+        ("Located", lambda: pp.Located(W("ab")), "ab"), ("Dict", lambda: pp.Dict(pp.Group(W("a") + W("b"))), "a b"), ("FollowedBy", lambda: pp.FollowedBy("?"), ""),
+        ("NotAny", lambda: ~L("z"), ""), ("SkipTo", lambda: pp.SkipTo("?"), "a "), ("DelimitedList", lambda: pp.DelimitedList(W("ab")), "a, b"),
+        ("one_of", lambda: pp.one_of("a ab"), "ab"), ("common.integer", lambda: ppc.integer, "12"), ("original_text_for", lambda: pp.original_text_for(W("ab")), "ab"),
+        ("ungroup", lambda: pp.ungroup(pp.Group(W("ab"))), "ab"), ("Tag", lambda: pp.Tag("t"), ""), ("AtStringStart", lambda: pp.AtStringStart(W("ab")), "ab"),
+        ("named", lambda: W("ab")("n"), "ab"), ("copy", lambda: pp.Suppress("a").copy(), "a"), ("repeat", lambda: L("a") * 2, "a a"), ("slice", lambda: L("a")[1, 2], "a"),
+    ]
+    rights = [("str", lambda: "!"), ("Literal", lambda: L("!")), ("Suppress", lambda: pp.Suppress("!")), ("And", lambda: L("!") + "!")]
+    fallback = lambda: pp.Regex(r"(?s).*")
+    for lname, mk, prefix in lefts:
+        for rname, mkr in rights:
+            for form in ("sub", "sub-then-add", "in-group", "rsub"):
+                try:
+                    if form == "sub":
+                        seq = mk() - mkr()
+                    elif form == "sub-then-add":
+                        seq = mk() - mkr() + "."
+                    elif form == "in-group":
+                        seq = pp.Group(mk() - mkr())
+                    else:
+                        if rname != "str":
+                            continue
+                        seq, prefix_ = ("(" - mk()), None
+                    g = seq | fallback()
+                    inp = (prefix + " ?") if form != "rsub" else "( \x00"
+                    if form == "rsub" and lname in ("Empty", "StringStart", "LineStart", "Opt", "Opt.absent", "ZeroOrMore", "FollowedBy", "NotAny", "SkipTo",
+                                                    "Tag", "CharsNotIn", "White"):
+                        continue            # these match (or skip to) anything after "(": no failure to observe
+                    try:
+                        g.parse_string(inp)
+                        out = ("ok",)
+                    except pp.ParseSyntaxException as e:
+                        out = ("syntax", e.loc)
+                    except pp.ParseBaseException as e:
+                        out = (type(e).__name__, e.loc)
+                except Exception as e:
+                    out = ("internal", type(e).__name__, str(e)[:60])
+                ctx.stat("sub_operator_cases")
+                ctx.case("sub-operator|%s|%s|%s" % (lname, rname, form), True, True)
+                if out[0] != "syntax":
+                    ctx.violation("sub-operator:%s:%s:%s" % (lname, rname, form),
+                                  "(%s - %s) [%s] | <anything> on %r: the left operand matches, the right one fails, yet the outcome is %r instead of a "
+                                  "ParseSyntaxException (the `-` did not leave an error stop)" % (lname, rname, form, inp, out),
+                                  {"kind": "sub-operator", "left": lname, "right": rname, "form": form})
+
+
 def correspond(ctx):
+    sub_operator_family(ctx)
     corr.ensure_driver()
     rng = ctx.rng
     n = 600 if not ctx.thorough else 5000
@@ -610,6 +677,9 @@ def replay(ctx, obj):
         for v in c2.violations:
             print(v["what"])
         return not c2.violations
+    if r.get("kind") == "sub-operator":
+        print("re-run `./check C07`: sub_operator_family(ctx) regenerates %r" % (r,))
+        return False
     if r.get("kind") == "debug":
         g, env = _tuplify(r["grammar"]), {int(k): _tuplify(v) for k, v in (r.get("env") or {}).items()}
         a, b = outcome_with_debug(g, env, r["input"], False), outcome_with_debug(g, env, r["input"], r.get("which") or "all")
